@@ -87,6 +87,114 @@ func nameFormat(ds *core.Describer, v ssa.Value) (string, *core.VD, bool) {
 	return "", nil, false
 }
 
+// nameFormats is nameFormat for names that may come from a table: Sprintf(entry.format, …) with entry ranging over a
+// local slice literal whose elements store constant strings in that field yields every one of them.
+func nameFormats(ds *core.Describer, v ssa.Value) []string {
+	if fm, _, ok := nameFormat(ds, v); ok {
+		return []string{fm}
+	}
+	call, ok := v.(*ssa.Call)
+	if !ok || !strings.HasSuffix(core.CalleeName(&call.Call), "fmt.Sprintf") || len(call.Call.Args) < 1 {
+		return nil
+	}
+	// the format: field k of an element of a slice over a local array (possibly through the range variable's copy)
+	var elemAddr ssa.Value
+	field := -1
+	wholeStore := func(a *ssa.Alloc) ssa.Value {
+		var v ssa.Value
+		n := 0
+		if a.Referrers() != nil {
+			for _, ref := range *a.Referrers() {
+				if st, ok := ref.(*ssa.Store); ok && st.Addr == ssa.Value(a) {
+					v = st.Val
+					n++
+				}
+			}
+		}
+		if n != 1 {
+			return nil
+		}
+		return v
+	}
+	switch x := call.Call.Args[0].(type) {
+	case *ssa.Field:
+		if ld, ok := x.X.(*ssa.UnOp); ok && ld.Op == token.MUL {
+			elemAddr, field = ld.X, x.Field
+		}
+	case *ssa.UnOp:
+		if fa, ok := x.X.(*ssa.FieldAddr); ok && x.Op == token.MUL {
+			elemAddr, field = fa.X, fa.Field
+			if cp, isCopy := fa.X.(*ssa.Alloc); isCopy {
+				if w := wholeStore(cp); w != nil {
+					if ld, ok := w.(*ssa.UnOp); ok && ld.Op == token.MUL {
+						elemAddr = ld.X
+					}
+				}
+			}
+		}
+	}
+	ia, ok := elemAddr.(*ssa.IndexAddr)
+	if !ok || field < 0 {
+		return nil
+	}
+	sl, ok := ia.X.(*ssa.Slice)
+	if !ok {
+		return nil
+	}
+	arr, ok := sl.X.(*ssa.Alloc)
+	if !ok || arr.Referrers() == nil {
+		return nil
+	}
+	constField := func(addr ssa.Value) (string, bool) {
+		// the constant stored into field `field` of the struct at addr
+		if addr.Referrers() == nil {
+			return "", false
+		}
+		for _, r2 := range *addr.Referrers() {
+			fa, ok := r2.(*ssa.FieldAddr)
+			if !ok || fa.Field != field || fa.Referrers() == nil {
+				continue
+			}
+			for _, r3 := range *fa.Referrers() {
+				if st, ok := r3.(*ssa.Store); ok && st.Addr == ssa.Value(fa) {
+					return constString(st.Val)
+				}
+			}
+		}
+		return "", false
+	}
+	var out []string
+	for _, ref := range *arr.Referrers() {
+		ea, ok := ref.(*ssa.IndexAddr)
+		if !ok || ea.Referrers() == nil {
+			continue
+		}
+		if cs, ok := constField(ea); ok {
+			out = append(out, cs)
+			continue
+		}
+		// the element assigned as a whole from a literal built in a local
+		found := false
+		for _, r2 := range *ea.Referrers() {
+			st, ok := r2.(*ssa.Store)
+			if !ok || st.Addr != ssa.Value(ea) {
+				continue
+			}
+			if ld, ok := st.Val.(*ssa.UnOp); ok && ld.Op == token.MUL {
+				if cs, ok := constField(ld.X); ok {
+					out = append(out, cs)
+					found = true
+				}
+			}
+		}
+		if !found {
+			return nil
+		}
+	}
+	sort.Strings(out)
+	return out
+}
+
 func runC03(p *core.Prog, r *core.Report, tier string) {
 	ds := core.NewDescriber()
 	la := core.NewLockAnalysis(p)
@@ -128,12 +236,14 @@ func runC03(p *core.Prog, r *core.Report, tier string) {
 					scheduled[fm] = append(scheduled[fm], core.FnKey(outermost(f)))
 				}
 			case "CancelJob", "CancelJobIfExists", "RunJob", "RunJobIfExists", "JobExists":
-				fm, _, ok := nameFormat(ds, args[len(args)-1])
-				if !ok {
+				fms := nameFormats(ds, args[len(args)-1])
+				if len(fms) == 0 {
 					r.Undecide("C03.d", core.FnKey(f)+"|"+m+"-name", p.Pos(ci.Pos()), "job name is not a constant format")
 					return
 				}
-				used[fm] = append(used[fm], m+" in "+core.FnKey(outermost(f)))
+				for _, fm := range fms {
+					used[fm] = append(used[fm], m+" in "+core.FnKey(outermost(f)))
+				}
 			}
 		})
 	}
@@ -334,8 +444,10 @@ func runC03(p *core.Prog, r *core.Report, tier string) {
 		var cancelCalls []ssa.CallInstruction
 		for _, ci := range core.CallsNamed(f, "CancelJob", "CancelJobIfExists") {
 			a := ci.Common().Args
-			if fm, _, ok := nameFormat(ds, a[len(a)-1]); ok {
-				cancelled[fm] = true
+			if fms := nameFormats(ds, a[len(a)-1]); len(fms) > 0 {
+				for _, fm := range fms {
+					cancelled[fm] = true
+				}
 				cancelCalls = append(cancelCalls, ci)
 			}
 		}
